@@ -45,15 +45,16 @@ def affine(expr: ast.expr, lenvars: dict[str, str]) -> Optional[dict]:
 
 
 def writeback_conservation(run: Run, model: PyModel, rid: str) -> None:
-    """Abstract runs of _update_zo_file over a virtual page (nothing is read from or written to a disk): the text written back is the
-    page's text with exactly the FIRST line of each listed note replaced by add_thing_to_first_line(get_thing(note), <that line>) --
+    """Abstract runs of the two registered write-back handlers (NewZorgNotesEvent: ZIDs, ModifiedZorgNotesEvent: modify dates) over a virtual page
+    (nothing is read from or written to a disk): the text written back is the page's text with exactly the FIRST line of each listed note replaced by
+    what the same handler makes of that line when it is the only line of a page (metamorphic: no expectation about the rewritten line itself) --
     every other line, every other character (form feeds, U+2028, carriage returns, the final newline or its absence) unchanged.
-    The rule is about what is written, not about how the line list is spliced (concatenation, slice store, single-line store ...)."""
-    from .absint import Interp, Raised, State
-    from .absval import FuncV, HObj, Ref
+    The rule is about what is written, not about how the line list is spliced or which helpers / parameters carry the line function."""
+    from .absint import Raised
+    from .absval import HObj
+    from .indexscen import event_handlers, writeback_line
     from .virtual import World, vpath
 
-    fi = model.func(f"{H}._update_zo_file")
     pages = {
         "adjacent multi-line notes": ["# header", "- first note", "  second line of it", "  third line of it", "o P2 a todo", "  its continuation", "", "- last"],
         "unusual characters above the notes": ["pasted\u2028text with a line separator", "form\x0cfeed and carriage\rreturn", "- note one", "  cont\u2028inued", "- note two", ""],
@@ -66,53 +67,58 @@ def writeback_conservation(run: Run, model: PyModel, rid: str) -> None:
         "first and last line of the page": [(1, 1), (3, 1)],
     }
     n = 0
-    for label, lines in pages.items():
-        text = "\n".join(lines)
-        W = World(model, files={"p.zo": "h1"}, old_map={"p.zo": "h0"}, indexed={"p.zo"}, errors=set(), whitelist=[], contents={"/Z/p.zo": text})
-        probes = W.probes()
-
-        def add_thing(I, args, kwargs, st, node):
-            return [(f"<{args[0]}|{args[1]}>" if all(isinstance(a, str) for a in args[:2]) and len(args) == 2 else None, st)]
-
-        def get_thing(I, args, kwargs, st, node):
-            return [(st.obj(args[0]).fields["zid"] if isinstance(args[0], Ref) else None, st)]
-
-        probes["zv.add_thing"] = add_thing
-        probes["zv.get_thing"] = get_thing
-        I = Interp(model, probes=probes, max_states=4000)
-        st = State()
-        objs = []
-        for k, (ln, cnt) in enumerate(notes[label]):
-            body_lines = lines[ln - 1:ln - 1 + cnt]
-            body = "\n".join([body_lines[0][2:]] + body_lines[1:])
-            objs.append(st.alloc(HObj("obj", cls="zorg.domain.models._page.Note", fields=dict(body=body, zid=f"T{k}", line_no=ln, todo_payload=None, modify_date=None, create_date=None, file_path=None))))
-        kwargs = dict(zdir=vpath("/Z"), zo_path=vpath("/Z/p.zo"), notes_to_update=st.alloc(HObj("list", items=objs)), add_thing_to_first_line=FuncV("zv.add_thing"), get_thing=FuncV("zv.get_thing"),
-                      log_message="m")
-        try:
-            res = I.run_function(f"{H}._update_zo_file", [], kwargs, st=st)
-        except Exception as e:  # noqa: BLE001
-            run.undecided(rid, "_update_zo_file", f"{label}: cannot interpret: {type(e).__name__}: {str(e)[:100]}")
+    for event, field in (("NewZorgNotesEvent", "new_notes"), ("ModifiedZorgNotesEvent", "modified_notes")):
+        hs = event_handlers(model, event)
+        if len(hs) != 1:
+            run.undecided(rid, "EVENT_HANDLERS", f"{event} has {len(hs)} registered handlers")
             continue
-        want = list(lines)
-        for k, (ln, cnt) in enumerate(notes[label]):
-            want[ln - 1] = f"<T{k}|{lines[ln - 1]}>"
-        want_text = "\n".join(want)
-        for v, s in res:
-            n += 1
-            if isinstance(v, Raised) or s.imprecise:
-                run.undecided(rid, "_update_zo_file", f"{label}: " + (f"raises {v.exc}" if isinstance(v, Raised) else "; ".join(s.imprecise[:2])))
+        fi = model.func(hs[0])
+        for label, lines in pages.items():
+            text = "\n".join(lines)
+            W = World(model, files={"p.zo": "h1"}, old_map={"p.zo": "h0"}, indexed={"p.zo"}, errors=set(), whitelist=[], contents={"/Z/p.zo": text})
+            specs = []
+            for k, (ln, cnt) in enumerate(notes[label]):
+                body_lines = lines[ln - 1:ln - 1 + cnt]
+                first = body_lines[0].split(" ", 2 if body_lines[0].startswith("o P2 ") else 1)[-1]
+                specs.append(dict(body="\n".join([first] + body_lines[1:]), zid=f"240101#0{k}", line_no=ln))
+
+            def build(st, specs=specs):
+                objs = [st.alloc(HObj("obj", cls="zorg.domain.models._page.Note", fields=dict(todo_payload=None, modify_date=None, create_date=None, file_path=None, block=None, **sp))) for sp in specs]
+                return {"zorg_page_path": vpath("/Z/p.zo"), field: st.alloc(HObj("list", items=objs))}
+
+            try:
+                res = W.run(hs[0], {}, build=build)
+            except Exception as e:  # noqa: BLE001
+                run.undecided(rid, fi.name, f"{label}: cannot interpret: {type(e).__name__}: {str(e)[:100]}")
                 continue
-            writes = [t[2] for t in s.trace if t[0] == "write_text" and t[1] == "/Z/p.zo"]
-            got = writes[-1] if writes else None
-            detail = "nothing is written" if got is None else "wrote " + repr(got)[:160]
-            if isinstance(got, str) and got != want_text:
-                gl, wl = got.split("\n"), want
-                k = next((i for i in range(min(len(gl), len(wl))) if gl[i] != wl[i]), min(len(gl), len(wl)))
-                detail = f"line {k + 1} becomes {gl[k]!r} instead of {wl[k]!r}" if k < min(len(gl), len(wl)) else f"{len(gl)} lines written, {len(wl)} expected"
-            run.check(rid, f"{label}: only the first line of each listed note changes, everything else is written back unchanged", got == want_text, "_update_zo_file", f"{label}: {detail}",
-                      f"write-back of a page ({label}): {detail}: lines of the note or of its neighbours are dropped, duplicated or rewritten (line_no counts '\\n'-separated lines only; "
-                      "splitlines() also splits on U+2028, \\x0c, \\r ...), so ZIDs / dates land in other notes' text", file=FILE_H, node=fi.node)
-    run.floor("write-back scenarios", n, 3)
+            want = list(lines)
+            bad = None
+            for sp in specs:
+                one, why = writeback_line(model, event, lines[sp["line_no"] - 1], dict(body=sp["body"].split("\n")[0], zid=sp["zid"]), field)
+                if one is None:
+                    bad = why
+                    break
+                want[sp["line_no"] - 1] = one
+            if bad is not None:
+                run.undecided(rid, fi.name, f"{label}: {bad}")
+                continue
+            want_text = "\n".join(want)
+            for v, trace, imprecise in res:
+                n += 1
+                if isinstance(v, Raised) or imprecise:
+                    run.undecided(rid, fi.name, f"{label}: " + (f"raises {v.exc}" if isinstance(v, Raised) else "; ".join(imprecise[:2])))
+                    continue
+                writes = [t[2] for t in trace if t[0] == "write_text" and t[1] == "/Z/p.zo"]
+                got = writes[-1] if writes else None
+                detail = "nothing is written" if got is None else "wrote " + repr(got)[:160]
+                if isinstance(got, str) and got != want_text:
+                    gl, wl = got.split("\n"), want
+                    k = next((i for i in range(min(len(gl), len(wl))) if gl[i] != wl[i]), min(len(gl), len(wl)))
+                    detail = f"line {k + 1} becomes {gl[k]!r} instead of {wl[k]!r}" if k < min(len(gl), len(wl)) else f"{len(gl)} lines written, {len(wl)} expected"
+                run.check(rid, f"{fi.name}, {label}: only the first line of each listed note changes, everything else is written back unchanged", got == want_text, "write-back", f"{fi.name}, {label}: {detail}",
+                          f"write-back ({fi.name}) of a page ({label}): {detail}: lines of the note or of its neighbours are dropped, duplicated or rewritten (line_no counts '\\n'-separated lines only; "
+                          "splitlines() also splits on U+2028, \\x0c, \\r ...), so ZIDs / dates land in other notes' text", file=FILE_H, node=fi.node)
+    run.floor("write-back scenarios", n, 6)
 
 
 def page_then_hashmap(run: Run, model: PyModel, eff: Effects, rid: str) -> None:
